@@ -105,7 +105,7 @@ V_ENSURES(__CPROVER_return_value != 1 || V_OLD(idx->zck->error_state) == 0) /*@C
 V_ENSURES(__CPROVER_return_value != 1 || &idx->zck->check_chunk_hash != g_hu_hash || (g_hu_final == V_OLD(g_hu_final) + 1 && g_fin_total == V_OLD(g_hu_total) && g_fin_seen == V_OLD(g_hu_seen) && g_fin_ptr == V_OLD(g_hu_ptr))) /*@C02,C15,C09.validate_chunk.verdict_is_over_everything_fed_since_init*/
 V_ENSURES(__CPROVER_return_value != 1 || &idx->zck->check_chunk_hash != g_hu_hash || idx->comp_length == 0 || !(g_k1 < (size_t)idx->digest_size) || g_fin_val == idx->digest[g_k1]) /*@C02,C15,C09,C08,C05.validate_chunk.valid_only_if_every_digest_byte_equal*/
 V_ENSURES(__CPROVER_return_value != 1 || idx->comp_length != 0 || !(g_k1 < (size_t)idx->digest_size) || idx->digest[g_k1] == 0) /*@C02,C09.validate_chunk.empty_chunk_needs_zero_digest*/
-V_ENSURES(V_OLD(idx->zck->error_state) > 0 || idx->zck->check_chunk_hash.ctx == NULL) /*@C03.validate_chunk.hash_closed*/
+V_ENSURES((V_OLD(idx->zck->error_state) > 0 && idx->zck->check_chunk_hash.ctx == V_OLD(idx->zck->check_chunk_hash.ctx) && idx->zck->check_chunk_hash.type == V_OLD(idx->zck->check_chunk_hash.type)) || (idx->zck->check_chunk_hash.ctx == NULL && idx->zck->check_chunk_hash.type == NULL)) /*@C03.validate_chunk.hash_closed_or_untouched*/
 V_ENSURES(__CPROVER_return_value != 0 || idx->zck->error_state > 0) /*@C12.validate_chunk.error_sets_error_state*/
 ;
 
@@ -118,6 +118,7 @@ V_FREES(zck->check_chunk_hash.ctx)
 V_ENSURES(__CPROVER_return_value == 1 || __CPROVER_return_value == 0 || __CPROVER_return_value == -1) /*@C02.validate_current_chunk.ret*/
 V_ENSURES(__CPROVER_return_value != 1 || (V_OLD(zck->error_state) == 0 && zck->comp.data_idx->valid == 1)) /*@C02,C15.validate_current_chunk.one_means_chunk_marked_valid*/
 V_ENSURES(__CPROVER_return_value != 1 || &zck->check_chunk_hash != g_hu_hash || (g_hu_final == V_OLD(g_hu_final) + 1 && g_fin_total == V_OLD(g_hu_total) && g_fin_seen == V_OLD(g_hu_seen))) /*@C02,C15.validate_current_chunk.verdict_is_over_everything_fed_since_init*/
+V_ENSURES((V_OLD(zck->error_state) > 0 && zck->check_chunk_hash.ctx == V_OLD(zck->check_chunk_hash.ctx) && zck->check_chunk_hash.type == V_OLD(zck->check_chunk_hash.type)) || (zck->check_chunk_hash.ctx == NULL && zck->check_chunk_hash.type == NULL)) /*@C03.validate_current_chunk.hash_closed_or_untouched*/
 V_ENSURES(__CPROVER_return_value != 1 || &zck->check_chunk_hash != g_hu_hash || zck->comp.data_idx->comp_length == 0 || !(g_k1 < (size_t)zck->comp.data_idx->digest_size) || g_fin_val == zck->comp.data_idx->digest[g_k1]) /*@C02,C15.validate_current_chunk.valid_only_if_every_digest_byte_equal*/
 ;
 
